@@ -1,7 +1,7 @@
 (* C09 - elementary operators compute exactly their documented mathematical action. *)
 From MrVerif Require Import Base.Prelude Base.StarRing Base.Sums Model.OpAlg Model.ZeroPad Model.ElemOps
   Proofs.OpAlgProofs Proofs.ElemOpsProofs Proofs.AlongProofs Proofs.ElemOpsWf Proofs.ZeroPadProofs
-  Model.Wavelet Proofs.WaveletProofs Proofs.WaveletWf Proofs.WaveletPRProofs.
+  Model.Wavelet Proofs.WaveletProofs Proofs.WaveletWf Proofs.WaveletPRProofs Proofs.AlongGramProofs.
 
 (* zero padding / cropping keeps the centre sample at index n//2, for all sizes of either parity *)
 Theorem C09_pad_centre : forall (R : StarRing) old new (x : nat -> R), (0 < old)%nat -> (0 < new)%nat ->
@@ -97,3 +97,23 @@ Example C09_wavelet_haar :
   let A := wavedec_Z 1 2 5 [1;1] [-1;1] [1;1] [1;-1] in
   map (fun t => adj A (fwd A (fun i => Z.of_nat i * 3 - 4)%Z) t) (seq 0 5) = map (fun t => (2 * (Z.of_nat t * 3 - 4))%Z) (seq 0 5).
 Proof. vm_compute. split; reflexivity. Qed.
+
+(* ---- N-D from 1-D: A^H A = c * identity is inherited by the operator applied along one axis of a row-major (pre, n, post) tensor ---- *)
+Theorem C09_along_axis_gram : forall (R : StarRing) pre post (A : linop R) (c : R), (0 < post)%nat -> (0 < dom A)%nat -> wf A ->
+  (forall x k, (k < dom A)%nat -> adj A (fwd A x) k = kmul c (x k)) ->
+  forall x j, (j < pre * (dom A * post))%nat -> adj (along pre post A) (fwd (along pre post A) x) j = kmul c (x j).
+Proof. exact along_gram_scalar. Qed.
+Print Assumptions C09_along_axis_gram.
+(* ... hence crop-after-pad along any axis of an N-D tensor is the identity (ZeroPadOp.adjoint after ZeroPadOp.forward) *)
+Theorem C09_crop_after_pad_along_axis : forall (R : StarRing) pre post old new, (0 < post)%nat -> (0 < old)%nat -> (old <= new)%nat ->
+  forall (x : nat -> R) j, (j < pre * (old * post))%nat ->
+  adj (along pre post (zeropad_op (R:=R) old new)) (fwd (along pre post (zeropad_op (R:=R) old new)) x) j = x j.
+Proof. exact crop_after_pad_along. Qed.
+Print Assumptions C09_crop_after_pad_along_axis.
+(* ... and an orthonormal wavelet transform of any depth applied along one axis stays an isometry *)
+Theorem C09_wavelet_isometry_along_axis : forall (R : StarRing) pre post level L n (flo fhi glo ghi : nat -> R),
+  (0 < post)%nat -> (0 < n)%nat -> (0 < L)%nat -> pr_cond L flo fhi glo ghi k1 ->
+  forall (x : nat -> R) j, (j < pre * (n * post))%nat ->
+  adj (along pre post (wavedec_op level L n flo fhi glo ghi)) (fwd (along pre post (wavedec_op level L n flo fhi glo ghi)) x) j = x j.
+Proof. exact wavelet_isometry_along. Qed.
+Print Assumptions C09_wavelet_isometry_along_axis.
